@@ -122,6 +122,15 @@ CHECKS = {
             "termination judged as bounded progress (120 s per batch, 60 s per isolated input, 3 confirmations); overflow checks are not enabled "
             "in the engine profile (flow/metrics.rs statistics underflow by design)",
             "DESIGN.md §4 C17"),
+    "C14": ("exploration",
+            "runtime monitoring: relational oracle (SHOW m vs QUERY q back to back at quiescent points) over scripted-clock histories",
+            "Remembered selection queries (plain, WHERE, FOR, SINCE, RETURN) are shown three times at every quiescent point of histories in "
+            "which events arrive on the high-water second, one or many seconds later, within one millisecond on different shards, with FLUSH, "
+            "auto-flush, compaction and clean restarts in between; SHOW must equal the live QUERY as a multiset of unique keys, repeated SHOWs "
+            "must agree, and REMEMBER under a taken name must fail.",
+            "the hook clock never goes backwards; REMEMBERs issued while a flush is in flight (25% of the histories) inherit the C03 in-flight "
+            "read findings and are matched to one known finding",
+            "DESIGN.md §4 C14"),
 }
 
 PENDING_REASON = "check not built yet in this session (see DESIGN.md §10 for the order); no claim is made"
